@@ -11,7 +11,8 @@ def cfgOfMask (m : Nat) (sc : Scheme) (sv : Services) : Cfg :=
 def protoOf (s : String) : Proto :=
   if s = "tcp" then .tcp else if s = "sctp" then .sctp else if s = "none" then .absent else .other
 
-/-- `rfp=<proto>`, `abp=<proto>`, `cgf=on|off` -/
+/-- `rfp=<proto>`, `abp=<proto>`, `cgf=on|off`, `klog=on|off` (started with a TLS key log file: not part of the configuration,
+    no outcome depends on it) -/
 def applyOpts (c : Cfg) : List String → Option Cfg
   | [] => some c
   | t :: r =>
@@ -20,6 +21,7 @@ def applyOpts (c : Cfg) : List String → Option Cfg
     | ["abp", v] => applyOpts { c with abmfProto := protoOf v } r
     | ["cgf", v] => if v = "on" then applyOpts { c with cgfEnable := true } r
                     else if v = "off" then applyOpts { c with cgfEnable := false } r else none
+    | ["klog", v] => if v = "on" ∨ v = "off" then applyOpts c r else none
     | _ => none
 
 def configOp : Tok → String
